@@ -588,7 +588,7 @@ func (c *Conn) handleCall(ctx context.Context, call rpccp.Call, releaseCall capn
 	}
 	c.answers[id] = ans
 	if parseErr != nil {
-		parseErr = annotate(err).errorf("incoming call")
+		parseErr = annotate(parseErr).errorf("incoming call")
 		rl := ans.sendException(parseErr)
 		c.unlockSender()
 		c.mu.Unlock()
